@@ -736,7 +736,7 @@ def run_session(case, judge, prop, tags, mism, viol, max_steps=MAX_STEPS):
     ops = case.get("session") or default_session(case)
     model = build_model(case)
     cur = {"x0": [int(v) for v in case["x0"]], "t0": float(sim0["t0"]), "pre_tau": sim0.get("pre_tau"), "epsilon": sim0.get("epsilon"),
-           "x0_form": sim0.get("x0_form") or "arr_int", "t0_form": sim0.get("t0_form") or "np_f64"}
+           "x0_form": sim0.get("x0_form") or "arr_int", "t0_form": sim0.get("t0_form") or "np_f64", "params": dict(case["params"])}
     handed = [("initial state (%s)" % cur["x0_form"], model._verif_x0_arg, copy.deepcopy(model._verif_x0_arg))]
     calls = []
     sigmode = lambda c: c.sim["mode"].split("_")[0]
@@ -786,6 +786,15 @@ def run_session(case, judge, prop, tags, mism, viol, max_steps=MAX_STEPS):
             handed.append(("initial state (%s, op %d)" % (cur["x0_form"], i), x0_arg, copy.deepcopy(x0_arg)))
             tags.append("op:set_iv:" + ("other_values" if changed else "same_values"))
             tags.append("x0_form:" + cur["x0_form"]); tags.append("t0_form:" + cur["t0_form"])
+        elif kind == "set_params":
+            model.parameters = {k: float(v) for k, v in op["params"].items()}
+            cur["params"] = dict(op["params"])
+            tags.append("op:set_params")
+        elif kind == "deepcopy":
+            # the calls that follow go to a deep copy of the configured instance: it carries the same configuration and
+            # initial values, and must not share anything writable with the original (whose returned arrays are still kept)
+            model = copy.deepcopy(model)
+            tags.append("op:deepcopy")
         elif kind == "sibling":
             run_sibling(op, case)
             tags.append("op:sibling:" + ("other_definition" if op.get("case") else "same_definition"))
@@ -799,7 +808,7 @@ def run_session(case, judge, prop, tags, mism, viol, max_steps=MAX_STEPS):
                      "pre_tau": cur["pre_tau"], "time": c.ts, "grid": c.grid, "grid_kind": c.ts["kind"], "x0_form": cur["x0_form"],
                      "t0_form": cur["t0_form"], "iterations": op.get("iterations", 2)}
             c.x0 = list(cur["x0"])
-            c.case = dict(case, x0=c.x0, sim=c.sim)
+            c.case = dict(case, x0=c.x0, sim=c.sim, params=dict(cur["params"]))
             c.leftover = c.exact and (cur["pre_tau"] is not None or cur["epsilon"] is not None)
             c.tobj = time_obj(c.ts)
             handed_t = ("time argument (%s, op %d)" % (c.ts["kind"], i), c.tobj, copy.deepcopy(c.tobj))
@@ -829,7 +838,7 @@ def run_session(case, judge, prop, tags, mism, viol, max_steps=MAX_STEPS):
                         v("a call repeated with the first call's configuration, initial values, horizon and seed does not reproduce it",
                           "history-dependent-path:repeat", "op %d vs op %d: %s" % (first[0].index, i, why), c)
             if op.get("fresh_ref") and c.tr.result is not None:
-                fc = dict(case, x0=c.x0, sim=dict(c.sim))
+                fc = dict(case, x0=c.x0, sim=dict(c.sim), params=dict(cur["params"]))
                 fm = build_model(fc)
                 _configure(fm, cur)
                 ftr = traced_run(fm, time_obj(c.ts), c.exact, op["np_seed"], iterations=c.sim["iterations"], max_steps=max_steps)
@@ -871,7 +880,7 @@ def gen_session(r, base, sim, *, lims=None, grid_share=0.35, exact_share=0.5, ru
     nS = len(base["x0"])
     forms = [f for f in x0_forms if f != "scalar" or nS == 1]
     cfg = {"x0": list(base["x0"]), "t0": t0, "pre_tau": sim.get("pre_tau"), "epsilon": sim.get("epsilon"),
-           "x0_form": sim.get("x0_form") or "arr_int", "t0_form": sim.get("t0_form") or "np_f64"}
+           "x0_form": sim.get("x0_form") or "arr_int", "t0_form": sim.get("t0_form") or "np_f64", "params": dict(base["params"])}
     ops, first = [], None
 
     def tau_value():
@@ -898,6 +907,12 @@ def gen_session(r, base, sim, *, lims=None, grid_share=0.35, exact_share=0.5, ru
             else:
                 t_alt = cfg["t0"] + 1.0 if (r.random() < 0.4 and T - cfg["t0"] > 2.5) else cfg["t0"]
                 set_iv(alt_x0(r, base["x0"], lims) if r.random() < 0.7 else base["x0"], t_alt)
+        if k > 0 and r.random() < 0.2:
+            # other parameter values (rates scale by at most 2: the horizon stays adequate), or the first ones again
+            cfg["params"] = dict(base["params"]) if cfg["params"] != base["params"] else {p: float(v) * r.choice([0.5, 2.0]) for p, v in base["params"].items()}
+            ops.append({"op": "set_params", "params": dict(cfg["params"])})
+        if k > 0 and r.random() < 0.15:
+            ops.append({"op": "deepcopy"})
         if k > 0 and r.random() < 0.3:
             sop = {"op": "sibling", "x0": alt_x0(r, base["x0"], lims), "params": {p: float(v) * r.choice([0.5, 2.0]) for p, v in base["params"].items()},
                    "t0": t0, "pre_tau": r.choice([None, tau_value()]), "epsilon": r.choice([None, 0.3]), "exact": r.random() < 0.5,
@@ -913,7 +928,7 @@ def gen_session(r, base, sim, *, lims=None, grid_share=0.35, exact_share=0.5, ru
         op = {"op": "run", "exact": exact, "time": time, "iterations": r.choice([1, 2, 2, 3]), "np_seed": r.randrange(2 ** 31)}
         ops.append(op)
         if first is None:
-            first = (len(ops) - 1, dict(cfg), op)
+            first = (len(ops) - 1, {k_: (dict(v_) if isinstance(v_, dict) else v_) for k_, v_ in cfg.items()}, op)
     if r.random() < 0.7:
         ops[max(i for i, o in enumerate(ops) if o["op"] == "run")]["fresh_ref"] = True
     if r.random() < 0.6 and n >= 2:
@@ -922,6 +937,8 @@ def gen_session(r, base, sim, *, lims=None, grid_share=0.35, exact_share=0.5, ru
             ops.append({"op": "set_pre_tau", "value": c0["pre_tau"]})
         if cfg["epsilon"] != c0["epsilon"]:
             ops.append({"op": "set_epsilon", "value": c0["epsilon"] if c0["epsilon"] is not None else 0.03})
+        if cfg["params"] != c0["params"]:
+            ops.append({"op": "set_params", "params": dict(c0["params"])})
         if (cfg["x0"], cfg["t0"]) != (c0["x0"], c0["t0"]) or r.random() < 0.5:
             # the first call's VALUES, handed over in a form of the other numeric kind (int <-> float) when there is one:
             # the result may depend on the values only
